@@ -48,7 +48,8 @@ fn ceil_ms(d: Duration) -> f64 {
 
 /// (AS, interface) list of a path, travel order
 pub fn ifaces(p: &ScionPath) -> Option<Vec<(IsdAsn, u16)>> {
-    p.metadata()?.interfaces.as_ref().map(|v| v.iter().map(|i| (i.interface.isd_asn, i.interface.id)).collect())
+    // an inter-AS path whose metadata lists no interfaces cannot be evaluated either
+    p.metadata()?.interfaces.as_ref().filter(|v| !v.is_empty()).map(|v| v.iter().map(|i| (i.interface.isd_asn, i.interface.id)).collect())
 }
 
 /// does the path run over the reported interface(s)?
@@ -67,6 +68,7 @@ pub struct Pool {
     pub dst: IsdAsn,
     /// generation → paths of that generation (same routes, timestamps shifted)
     pub gens: Vec<Vec<ScionPath>>,
+    #[allow(dead_code)]
     pub gen_shift: u32,
 }
 
@@ -214,6 +216,13 @@ pub enum Ev {
     /// SCMP internal connectivity down for the k-th transit AS of the active path
     ConnDown { pos: usize },
     FirstHopDown { foreign: bool },
+    /// two reports pending at one wake-up of the worker: one naming a foreign interface, then
+    /// external-interface-down for the k-th egress interface of the active path
+    IfaceDownBurst { pos: usize },
+    /// the most recent report that hit the active path is reported again now
+    RepeatLast,
+    /// keep re-reporting it every `step` seconds until the worker has performed its next lookup
+    RepeatUntilLookup { step: f64, max: usize },
     Send,
 }
 
@@ -237,6 +246,7 @@ pub struct World {
     pub fresh: Vec<(f64, u8, Vec<(IsdAsn, u16)>, u64)>,
     /// reports made so far (the issue memory holds the last `issue_cache_size` distinct ones)
     pub n_reports: u64,
+    pub last_hit: Option<(u8, Vec<(IsdAsn, u16)>)>,
     pub maint_steps: u64,
     pub last_maint: f64,
     /// time of the last maintenance round that performed a lookup (and thereby pruned the cache)
@@ -269,7 +279,7 @@ impl World {
         let now = BASE_TS as f64 + 10.0;
         fetcher.clock_ms.store((now * 1000.0) as u64, Ordering::SeqCst);
         let mp = ManualPathSet::new(at(now), pool.src, pool.dst, Fetch(fetcher.clone()), config, pol.to_policies()).expect("valid config");
-        World { mp, fetcher, now, pool, pol, cfg: config_values(&config), dead: false, history: vec![], fresh: vec![], n_reports: 0, maint_steps: 0, last_maint: 0.0, last_refresh: 0.0, reports: vec![] }
+        World { mp, fetcher, now, pool, pol, cfg: config_values(&config), dead: false, history: vec![], fresh: vec![], n_reports: 0, last_hit: None, maint_steps: 0, last_maint: 0.0, last_refresh: 0.0, reports: vec![] }
     }
 
     fn set_now(&mut self, t: f64) {
@@ -388,7 +398,19 @@ impl World {
                 let mut sel: Vec<ScionPath> = g.iter().enumerate().filter(|(i, _)| mask >> (i % 32) & 1 == 1).map(|(_, p)| p.clone()).collect();
                 for (i, p) in sel.iter_mut().enumerate() {
                     if strip >> (i % 32) & 1 == 1 {
-                        *p = ScionPath::new(p.src_ia(), p.dst_ia(), p.dp_path().clone(), None, None);
+                        // metadata gone, or present but without the interface list / with an empty one
+                        let md = match (strip >> 8).wrapping_add(i as u32) % 3 {
+                            0 => None,
+                            1 => p.metadata().cloned().map(|mut m| {
+                                m.interfaces = Some(vec![]);
+                                m
+                            }),
+                            _ => p.metadata().cloned().map(|mut m| {
+                                m.interfaces = None;
+                                m
+                            }),
+                        };
+                        *p = ScionPath::new(p.src_ia(), p.dst_ia(), p.dp_path().clone(), md, None);
                     }
                 }
                 self.fetcher.log.lock().unwrap().response = Some(Ok(sel));
@@ -413,7 +435,19 @@ impl World {
                     }
                 }
             }
-            Ev::IfaceDown { .. } | Ev::ConnDown { .. } | Ev::FirstHopDown { .. } => self.report(ev, m, v, replay),
+            Ev::IfaceDown { .. } | Ev::ConnDown { .. } | Ev::FirstHopDown { .. } | Ev::IfaceDownBurst { .. } => self.report(ev, m, v, replay),
+            Ev::RepeatLast => self.repeat_last(m),
+            Ev::RepeatUntilLookup { step, max } => {
+                let calls = self.fetcher.log.lock().unwrap().calls.len();
+                for _ in 0..*max {
+                    if self.dead || self.fetcher.log.lock().unwrap().calls.len() > calls {
+                        break;
+                    }
+                    self.repeat_last(m);
+                    let t = self.now + step;
+                    self.run_task_until(t, m, v, replay).await;
+                }
+            }
             Ev::Send => self.send(m, v, replay).await,
         }
         self.invariants(m, v, replay);
@@ -438,6 +472,15 @@ impl World {
                     hit.push((a, i));
                 }
                 self.mp.report_scmp_error(at(self.now), ScmpErrorMessage::ExternalInterfaceDown(ScmpExternalInterfaceDown::new(a, i, vec![])));
+            }
+            Ev::IfaceDownBurst { pos } => {
+                let egress: Vec<(IsdAsn, u16)> = ifs.iter().step_by(2).cloned().collect();
+                let (a, i) = egress[pos % egress.len()];
+                hit.push((a, i));
+                // both are queued before the worker looks at its channel
+                self.mp.report_scmp_error(at(self.now), ScmpErrorMessage::ExternalInterfaceDown(ScmpExternalInterfaceDown::new(foreign_as, 78, vec![])));
+                self.mp.report_scmp_error(at(self.now), ScmpErrorMessage::ExternalInterfaceDown(ScmpExternalInterfaceDown::new(a, i, vec![])));
+                self.n_reports += 1;
             }
             Ev::ConnDown { pos } => {
                 // transit AS k: ingress = ifs[2k+1], egress = ifs[2k+2]
@@ -496,6 +539,7 @@ impl World {
             return;
         }
         m.count("reports_hitting_active_path");
+        self.last_hit = Some((match ev { Ev::ConnDown { .. } => 1, Ev::FirstHopDown { .. } => 2, _ => 0 }, hit.clone()));
         self.reports.push((self.now, matches!(ev, Ev::ConnDown { .. }), hit.clone()));
         let now = at(self.now);
         // an alternative that avoids the interface, is valid, and carries no fresh penalty itself
@@ -504,23 +548,45 @@ impl World {
         if alt_exists {
             m.count("reports_with_alternative");
             let kind = match ev {
-                Ev::IfaceDown { .. } => "scmp-external-interface-down",
+                Ev::IfaceDown { .. } | Ev::IfaceDownBurst { .. } => "scmp-external-interface-down",
                 Ev::ConnDown { .. } => "scmp-internal-connectivity-down",
                 _ => "first-hop-send-failure",
             };
             match &after {
                 Some(a) if !uses(a, &hit) => {
                     m.count("failovers");
-                    self.fresh.push((self.now, match ev { Ev::IfaceDown { .. } => 0, Ev::ConnDown { .. } => 1, _ => 2 }, hit.clone(), self.n_reports));
+                    self.fresh.push((self.now, match ev { Ev::IfaceDown { .. } | Ev::IfaceDownBurst { .. } => 0, Ev::ConnDown { .. } => 1, _ => 2 }, hit.clone(), self.n_reports));
                 }
                 // the new path enters an AS through the reported interface: the manager only
                 // matches an external-interface report against egress interfaces
-                Some(a) if matches!(ev, Ev::IfaceDown { .. }) && before.as_ref().map(route_key) != Some(route_key(a)) && ifaces(a).map(|v| !v.iter().step_by(2).any(|x| hit.contains(x))).unwrap_or(false) => {
+                Some(a) if matches!(ev, Ev::IfaceDown { .. } | Ev::IfaceDownBurst { .. }) && before.as_ref().map(route_key) != Some(route_key(a)) && ifaces(a).map(|v| !v.iter().step_by(2).any(|x| hit.contains(x))).unwrap_or(false) => {
                     m.violation("interface-down-ignored-for-paths-entering-through-it", format!("after a {kind} report for {hit:?} traffic moved to a path that uses the same interface as ingress"), replay(self))
                 }
                 Some(_) => m.violation(format!("no-failover:{kind}"), format!("after a {kind} report for {hit:?} the next send still uses a path over it although a valid cached path avoids it (swap threshold {})", self.cfg.path_swap_score_threshold), replay(self)),
                 None => m.violation(format!("no-path-after-report:{kind}"), "no active path after the report although an alternative is cached", replay(self)),
             }
+        }
+    }
+
+    fn repeat_last(&mut self, m: &mut Mon) {
+        let Some((kind, hit)) = self.last_hit.clone() else { return };
+        match kind {
+            0 => self.mp.report_scmp_error(at(self.now), ScmpErrorMessage::ExternalInterfaceDown(ScmpExternalInterfaceDown::new(hit[0].0, hit[0].1, vec![]))),
+            1 => self.mp.report_scmp_error(at(self.now), ScmpErrorMessage::InternalConnectivityDown(ScmpInternalConnectivityDown::new(hit[0].0, hit[0].1, hit[1].1, vec![]))),
+            _ => self.mp.report_first_hop_unreachable(at(self.now), hit[0].0, hit[0].1),
+        }
+        self.mp.handle_pending_issues(at(self.now));
+        m.count("issue_reports");
+        m.count("repeated_reports");
+        self.n_reports += 1;
+        self.reports.push((self.now, kind == 1, hit.clone()));
+        // a report inside the dedup window is ignored by design: it does not renew freshness
+        let window = self.cfg.issue_deduplication_window.as_secs_f64();
+        let renewed = self.fresh.iter().rev().find(|f| f.2 == hit).map(|f| self.now - f.0 >= window).unwrap_or(true);
+        // freshness is about traffic that has moved away: only if the active path avoids it now
+        let away = self.mp.active_path().map(|a| !path_uses(&a, kind == 1, &hit)).unwrap_or(false);
+        if renewed && away {
+            self.fresh.push((self.now, kind, hit, self.n_reports));
         }
     }
 
@@ -550,7 +616,20 @@ impl World {
                 }
                 if v.c06 && p.expiration().map(|e| (e as f64) <= self.now).unwrap_or(false) {
                     // did the worker have a maintenance round at or after the expiry instant?
-                    let sig = if self.last_refresh >= p.expiration().unwrap() as f64 { "expired-path-handed-out:after-a-path-refresh" } else { "expired-path-handed-out:no-path-refresh-since-expiry" };
+                    // the known gap: no lookup round since the expiry, because lookups failed
+                    // (backoff) or because the path was already inside threshold + minimum delay
+                    // when the last successful lookup scheduled the next one
+                    let exp = p.expiration().unwrap() as f64;
+                    // successful as the manager sees it (a result holding only expired paths counts as failed)
+                    let last_ok = log.classes.last() == Some(&'o') && self.mp.failed_attempts() == 0;
+                    let room = exp - self.last_refresh;
+                    let sig = if self.last_refresh >= exp {
+                        "expired-path-handed-out:after-a-path-refresh"
+                    } else if last_ok && room > self.cfg.min_expiry_threshold.as_secs_f64() + self.cfg.min_refetch_delay.as_secs_f64() + 1.0 {
+                        "expired-path-handed-out:next-lookup-scheduled-after-the-expiry"
+                    } else {
+                        "expired-path-handed-out:no-path-refresh-since-expiry"
+                    };
                     m.violation(sig, format!("path expired {}s ago (lookup classes so far: {})", self.now - p.expiration().unwrap() as f64, log.classes.iter().collect::<String>()), replay(self));
                 }
                 if v.c07 {
